@@ -120,8 +120,10 @@ def rule_prov(ctx):
         okk, why = False, f'`{norm(st)}`'
         if kind == 'init':
             # own identities under the recency test
-            if isinstance(val, ast.Call) and norm(val.func) == 'set' and val.args and isinstance(val.args[0], ast.GeneratorExp):
-                g = val.args[0].generators[0]
+            comp = val.args[0] if isinstance(val, ast.Call) and norm(val.func) == 'set' and val.args and isinstance(val.args[0], ast.GeneratorExp) \
+                else (val if isinstance(val, ast.SetComp) else None)
+            if comp is not None and len(comp.generators) == 1 and norm(comp.elt) == norm(comp.generators[0].target):
+                g = comp.generators[0]
                 pv = norm(g.target)
                 cjs = [x for t in g.ifs for x in pr.conjuncts(t)]
                 okk = ctx.res.canon(g.iter, f) == 'self.myselves' and len(cjs) == 1 and recency_test(ctx, f, cjs, pv, d)
@@ -239,9 +241,14 @@ def rule_port(ctx):
               'a port is returned only under 0 < port < 65536', 'a port can be returned outside 0 < port < 65536: ' + why, loc=ctx.loc(f, f.node))
     n += 1
     g = ctx.func('peer', 'Peer._integer')
-    rets = [r for r in g.own_nodes() if isinstance(r, ast.Return)]
-    oki = len(rets) == 1 and isinstance(rets[0].value, ast.IfExp) and isinstance(rets[0].value.body, ast.Name) and \
-        norm(rets[0].value.test) == f'isinstance({rets[0].value.body.id}, int)' and norm(rets[0].value.orelse) == 'None'
+    # per return path: None, or a value the path has established to be an int
+    from .. import paths as P
+    rps = P.returns(g.node)
+    oki = bool(rps) and any(not (isinstance(p_.value, ast.Constant) and p_.value.value is None) for p_ in rps)
+    for p_ in rps:
+        if isinstance(p_.value, ast.Constant) and p_.value.value is None:
+            continue
+        oki = oki and any(pol and isinstance(t, ast.expr) and norm(t) == f'isinstance({norm(p_.value)}, int)' for t, pol, _n in p_.conds)
     ctx.check(oki, 'C19.PORT', ctx.key(g, None, 'integers only'), '_integer returns an int or None',
               '_integer can return a non-integer', loc=ctx.loc(g, g.node))
     return n + 1
@@ -343,15 +350,29 @@ def rule_cached(ctx):
 def rule_features(ctx):
     f = ctx.func('peer', 'Peer.peers_from_features')
     n = 0
-    comps = [x for x in f.own_nodes() if isinstance(x, ast.ListComp)]
-    ok = False
-    if len(comps) == 1:
+    # per return path, locals expressed in the inputs: peers are built only on a path that established
+    # isinstance(features, dict) and isinstance(features.get('hosts'), dict), one per *string* host; other paths return []
+    from .. import paths as P
+    rps = P.returns(f.node)
+    ok = bool(rps)
+    built = 0
+    for p_ in rps:
+        comps = [x for x in ast.walk(p_.value) if isinstance(x, ast.ListComp)]
+        ctors = [x for x in ast.walk(p_.value) if isinstance(x, ast.Call) and norm(x.func) in ('Peer', 'cls')]
+        if not comps and not ctors:
+            ok = ok and norm(p_.value) == '[]'
+            continue
+        built += 1
+        if len(comps) != 1 or p_.value is not comps[0]:
+            ok = False
+            continue
         c = comps[0]
-        conds = [norm(t) for t, b, _p in pr.control_conditions(q.stmt(c), f.node) if b]
         g = c.generators[0]
-        ifs = [norm(x) for x in g.ifs]
-        ok = f'isinstance({f.params[1]}, dict)' in conds and f'isinstance({norm(g.iter)}, dict)' in conds and \
-            ifs == [f'isinstance({norm(g.target)}, str)']
+        held = {norm(t) for t, pol, _n in p_.conds if pol and isinstance(t, ast.expr)}
+        ok = ok and len(c.generators) == 1 and f'isinstance({f.params[1]}, dict)' in held and f'isinstance({norm(g.iter)}, dict)' in held \
+            and norm(g.iter) == f"{f.params[1]}.get('hosts')" and [norm(x) for x in g.ifs] == [f'isinstance({norm(g.target)}, str)'] \
+            and isinstance(c.elt, ast.Call) and c.elt.args and norm(c.elt.args[0]) == norm(g.target)
+    ok = ok and built >= 1
     ctx.check(ok, 'C19.FEATURES', ctx.key(f, None, 'type checks'),
               'peers are built only for string hosts of a dict `hosts` inside a dict of features',
               'peers can be built from announced features without the dict / dict / str checks', loc=ctx.loc(f, f.node))
